@@ -53,7 +53,8 @@ RULE = (
     "correspondence: generated sheet dictionaries (1..12 sensor names, single setup or 2..4 setups with 1..3 references, "
     "row-permuted coordinate/direction tables with extra rows, optional sheets present / absent / empty, INFO sheet, every "
     "single-fault corruption, all name forms) sent as exact rationals / strings to the Lean model and to check_on_geo1/2, "
-    "flatten_sns_names, def_geo1/def_geo2, dfphi_map_func: same exception class or the same tables cell by cell "
+    "flatten_sns_names, def_geo1/def_geo2 (valid sets in every argument form AND the same single faults, incl. DataFrame "
+    "directions with renamed / re-ordered row labels and mapping / sign frames labelled in another order), dfphi_map_func: same exception class or the same tables cell by cell "
     "(numbers exactly; mapped values and displacements at 1e-12). oracle: the statement with plain dict look-ups on the "
     "generating spec, plus Agg artists of plot_mode_geo1 / plot_mode_geo2_mpl. distinct = distinct (function, shape/"
     "corruption/form) classes"
@@ -672,21 +673,33 @@ def opt_arg(t, as_array):
     return df
 
 
+# single faults that can be expressed through the arguments of def_geo1 / def_geo2 (the required
+# arguments cannot be missing, the dictionary keys are fixed); LABEL_FAULTS need a DataFrame of
+# directions (an ndarray carries no row labels)
+DEF_FAULT1 = ["index_labels", "index_order", "dir_shape_rows", "dir_shape_cols", "coord_cols", "name_absent",
+              "name_renamed", "bgnodes_cols", "bglines_cols", "bgsurf_cols"]
+DEF_FAULT2 = ["pts_cols", "map_shape_rows", "map_shape_cols", "sign_shape", "name_absent", "cstr_unknown_sensor",
+              "cstr_unused", "bgnodes_cols", "bglines_cols", "bgsurf_cols"]
+LABEL_FAULTS = ("index_labels", "index_order", "dup_label")
+
+
 def defgeo1_args(spec, form, arrays):
-    lab = spec["labels"]
-    coord = mk_df(T(lab, ["x", "y", "z"], [spec["coord"][s] for s in lab]))
-    dirs = mk_df(T(lab, ["x", "y", "z"], [spec["dir"][s] for s in lab]))
+    """arguments of def_geo1 from the same frames as the sheet dictionary (so that every
+    corruption of the spec reaches the class-level entry point as well)"""
+    fd = build_fd1({**spec, "info": False, "drop": []})
     o = spec["opt"]
+    dirs = fd["sensors directions"]
+    dir_array = arrays and spec.get("fault") not in LABEL_FAULTS
     return dict(
-        sens_names=names_form(spec, form), sens_coord=coord,
-        sens_dir=dirs.to_numpy() if arrays else dirs,
+        sens_names=names_form(spec, form), sens_coord=fd["sensors coordinates"],
+        sens_dir=dirs.to_numpy() if dir_array else dirs,
         sens_lines=opt_arg(o.get("sensors lines"), arrays), bg_nodes=opt_arg(o.get("BG nodes"), arrays),
         bg_lines=opt_arg(o.get("BG lines"), arrays), bg_surf=opt_arg(o.get("BG surfaces"), arrays),
     )
 
 
 def defgeo2_args(spec, form, arrays):
-    fd = build_fd2({**spec, "info": False})
+    fd = build_fd2({**spec, "info": False, "drop": []})
     o = spec["opt"]
     return dict(
         sens_names=names_form(spec, form), pts_coord=fd["points coordinates"], sens_map=fd["mapping"],
@@ -805,14 +818,36 @@ def corr_geo(ctx, gen, which):
 def corr_defgeo(ctx):
     rng = ctx.rng
     S = _setup_cls()
-    for it in range(ctx.n(40, 500)):
+    for it in range(ctx.n(90, 900)):
         which = 1 + it % 2
         spec = (gen_geo1 if which == 1 else gen_geo2)(rng)
         form = rng.choice([f for f in FORMS if names_form(spec, f) is not None])
-        arrays = rng.random() < 0.6
+        arrays = rng.random() < 0.5
+        tag = "valid"
+        c = rng.random()
+        if c < 0.5:  # the single faults of check_on_geo1/2, through the class-level entry point
+            tags = (DEF_FAULT1 + ["dup_label", "index_labels", "index_order"]) if which == 1 else DEF_FAULT2
+            tg = tags[(it // 2) % len(tags)]
+            cs = (corrupt1 if which == 1 else corrupt2)(spec, tg, rng)
+            if cs is not None:
+                spec, tag = cs, tg
+        elif c < 0.62 and which == 2:
+            # row labels of mapping / sign in another order than the points: the code matches rows by
+            # position and returns the frames with the labels they came with
+            spec = copy.deepcopy(spec)
+            idx = list(range(1, spec["P"] + 1))
+            rng.shuffle(idx)
+            key = "map_index" if (rng.random() < 0.5 or not isinstance(spec["sign"], list)) else "sign_index"
+            spec[key] = idx
+            tag = key + "_perm"
+        elif c < 0.62 and which == 1:
+            # a frame of directions whose labels are those of the coordinates: consistent, any order
+            arrays = False
+            tag = "consistent_frames"
         args = (defgeo1_args if which == 1 else defgeo2_args)(spec, form, arrays)
-        if which == 1 and arrays and rng.random() < 0.1:
+        if which == 1 and isinstance(args["sens_dir"], np.ndarray) and tag == "valid" and rng.random() < 0.1:
             args["sens_dir"] = args["sens_dir"][:-1]  # malformed: a row short
+            tag = "dir_array_short"
         inp = {"names": names_json(args["sens_names"]), "ref_ind": spec["ref_ind"]}
         if which == 1:
             inp.update(coord=tbl_json(args["sens_coord"]), dir=_arrarg(args["sens_dir"]), lines=_arrarg(args["sens_lines"]),
@@ -824,8 +859,9 @@ def corr_defgeo(ctx):
         model = ctx.model(f"c19_defgeo{which}", **inp)
         res = run(lambda: call_defgeo(S, which, args, spec["ref_ind"])[1])
         ok = (cmp_geo1 if which == 1 else cmp_geo2)(model, res)
-        ctx.corr(f"def_geo{which}", ok, inp, model, summarize(res), (form, arrays, len(spec["flat"]), model.get("err", "ok")))
+        ctx.corr(f"def_geo{which}", ok, inp, model, summarize(res), (tag, form, arrays, len(spec["flat"]), model.get("err", "ok")))
         ctx.count(f"defgeo{which}_{form}_{'arrays' if arrays else 'frames'}")
+        ctx.count(f"defgeo{which}_{tag}_{model.get('err', 'ok')}")
 
 
 def gen_mapcase(rng):
@@ -1077,6 +1113,20 @@ def oracle_case(ctx, kind, spec, extra=None):
         j = judge(spec, out)
         if j:
             ctx.violation(f"def_geo{which}-{j}", f"def_geo{which}: geometry differs from the statement ({j})", inp, observed=summarize((True, out)))
+    elif kind == "defgeo_fault":
+        S = _setup_cls()
+        form, arrays = extra["form"], extra["arrays"]
+        args = (defgeo1_args if which == 1 else defgeo2_args)(spec, form, arrays)
+        if args["sens_names"] is None:
+            ctx.oracle_cases -= 1
+            return
+        ok, out = run(lambda: call_defgeo(S, which, args, spec["ref_ind"])[1])
+        if ok or out != "ValueError":
+            ctx.violation(f"def_geo{which}-fault-{spec['fault']}-{'accepted' if ok else out}",
+                          f"def_geo{which}: malformed tables ({spec['fault']}; names as {form}, optional tables as {'ndarrays' if arrays else 'DataFrames'}"
+                          + (", directions as DataFrame) " if spec["fault"] in LABEL_FAULTS else ") ")
+                          + ("define a geometry" if ok else f"raise {out}") + " instead of ValueError",
+                          inp, observed=summarize((True, out)) if ok else out, expected="ValueError")
     elif kind == "map":
         phi = extra["phi"]
         ok, out = run(fn, build(spec), ref_ind=spec["ref_ind"])
@@ -1170,7 +1220,7 @@ def oracle(ctx, scale):
                 oracle_case(ctx, "optional", s2)
                 ctx.count(f"oracle_optional_geo{which}")
     # (2) documented argument forms of def_geo1 / def_geo2
-    for it in range(ctx.n(24, 400) * scale):
+    for it in range(ctx.n(40, 400) * scale):
         which = 1 + it % 2
         spec = (gen_geo1 if which == 1 else gen_geo2)(rng, multi=(it % 4 < 2))
         form = [f for f in FORMS if names_form(spec, f) is not None][(it // 4) % 2 if spec["ref_ind"] is not None else (it // 4) % 3]
@@ -1178,6 +1228,19 @@ def oracle(ctx, scale):
         oracle_case(ctx, "defgeo", spec, {"form": form, "arrays": arrays})
         ctx.nontrivial.add(("oracle-defgeo", which, form, arrays))
         ctx.count(f"oracle_defgeo{which}_{form}_{'arrays' if arrays else 'frames'}")
+        # the same single faults as for check_on_geo1/2, through the class-level entry point
+        tags = DEF_FAULT1 if which == 1 else DEF_FAULT2
+        todo = tags if (ctx.thorough and it % 5 == 0) else [tags[(it // 2) % len(tags)], tags[(it // 2 + 1 + (it // 2) // len(tags)) % len(tags)]]
+        if which == 1 and it % 4 == 1:
+            todo = list(todo) + ["index_order", "index_labels"]
+        for tg in todo:
+            cs = (corrupt1 if which == 1 else corrupt2)(spec, tg, rng)
+            if cs is None:
+                ctx.skipped += 1
+                continue
+            oracle_case(ctx, "defgeo_fault", cs, {"form": form, "arrays": arrays})
+            ctx.nontrivial.add(("oracle-defgeo-fault", which, tg, arrays))
+            ctx.count(f"oracle_defgeo{which}_fault_{tg}")
     # (3) mapping of mode shapes
     for it in range(ctx.n(60, 900) * scale):
         spec, phi = gen_mapcase(rng)
